@@ -153,3 +153,16 @@ pub fn explore_parallel<S: mcx::Subject>(subjects: &[S], bounds_for: impl Fn(&S)
     });
     out.into_iter().map(|r| r.expect("report")).collect()
 }
+
+/// Vacuity guard: every letter class must have fired, unless findings cut the exploration short
+/// (a violating transition is a leaf, so deeper letters may legitimately never be reached).
+pub fn require_labels(r: &mcx::Report, labels: &[&str]) {
+    if !r.violations.is_empty() || !r.exhaustive {
+        return;
+    }
+    for l in labels {
+        if !r.label_hits.contains_key(*l) {
+            mcx::machinery_failure(&format!("{}: vacuous exploration, letter {l} never fired", r.subject));
+        }
+    }
+}
